@@ -239,6 +239,7 @@ class Impl:
     def op_spec_gfc(self, f, *a): return self._spec(f)
     def op_spec_gdl1(self, f, *a): return self._spec(f)
     def op_spec_polyakd(self, f, *a): return self._spec(f)
+    def op_spec_polyakf(self, f, *a): return self._spec(f)
     def op_spec_gd(self, f, *a): return self._spec(f)
     def op_spec_ppm(self, f, *a): return self._spec(f)
     def op_spec_agfc(self, f, *a): return self._spec(f)
@@ -978,6 +979,7 @@ def example_program(c):
     if c["func"] == "wc_gradient_descent_contraction": spec = ["spec.gdc f0 %s %d" % (fr(c["args"]["gamma"]), c["args"]["n"])]
     if c["func"] == "wc_proximal_gradient": spec = ["spec.pg f0 f1 f2 %s %d" % (fr(c["args"]["gamma"]), c["args"]["n"])]
     if c["func"] == "wc_gradient_flow_strongly_convex": spec = ["spec.gfsc f0"]
+    if c["func"] == "wc_polyak_steps_in_function_value": spec = ["spec.polyakf f0 %s %s" % (fr(c["args"]["L"]), fr(c["args"]["gamma"]))]
     if c["func"] == "wc_polyak_steps_in_distance_to_optimum": spec = ["spec.polyakd f0 %s" % fr(c["args"]["gamma"])]
     if c["func"] == "wc_gradient_descent" and c["module"].endswith("unconstrained_convex_minimization.gradient_descent"): spec = ["spec.gd f0 %s %d" % (fr(c["args"]["gamma"]), c["args"]["n"])]
     if c["func"] == "wc_proximal_point" and c["module"].endswith("unconstrained_convex_minimization.proximal_point"): spec = ["spec.ppm f0 %s %d" % (fr(c["args"]["gamma"]), c["args"]["n"])]
@@ -1003,6 +1005,10 @@ def gen_methods(seed):
         L = rnd.choice([1, 2, 0.5, 4, 1.7])
         c = dict(module="PEPit.examples.potential_functions.gradient_descent_lyapunov_1", func="wc_gradient_descent_lyapunov_1",
                  args=dict(L=L, gamma=rnd.choice([1 / L, 1 / L, 0.5 / L, 1]), n=rnd.randint(0, 12)))
+    elif seed % 32 == 29:
+        L = rnd.choice([1, 2, 0.5, 3, 4]); mu = rnd.choice([0.1, 0.25, 0.5]) * L
+        c = dict(module="PEPit.examples.adaptive_methods.polyak_steps_in_function_value", func="wc_polyak_steps_in_function_value",
+                 args=dict(L=L, mu=mu, gamma=rnd.choice([1 / L, (2 * L - mu) / L ** 2, 1.5 / L, 1.2 / L])))
     elif seed % 32 == 13:
         L = rnd.choice([1, 2, 0.5, 3, 4]); mu = rnd.choice([0.1, 0.25, 0.5]) * L
         c = dict(module="PEPit.examples.adaptive_methods.polyak_steps_in_distance_to_optimum", func="wc_polyak_steps_in_distance_to_optimum",
